@@ -75,8 +75,16 @@ def one_case(rec, tap, rng, cid):
         kw.update(optimal_fit_edelta=True,
                   optimal_fit_num_samples=int(rng.integers(7, 16)),
                   range_x=[0, float(rng.choice([np.inf, 5e-6]))])
+    # finite bounds on the contact point (in measured units, like the
+    # initial value) that contain truth and guess with a margin
+    cp_bounds = None
+    if rng.random() < .4:
+        cp_bounds = [float(min(cp_user, full["contact_point"])
+                           - rng.uniform(.3e-6, 1e-6)),
+                     float(max(cp_user, full["contact_point"])
+                           + rng.uniform(.3e-6, 1e-6))]
     case = {"id": cid, "spec": spec, "k": k, "mode": mode, "settings": kw,
-            "cp_user": cp_user}
+            "cp_user": cp_user, "cp_bounds": cp_bounds}
     res = {}
     for kk in (k, 1.0):
         idnt, _ = fitlab.build_curve(spec)
@@ -84,6 +92,9 @@ def one_case(rec, tap, rng, cid):
         # for k != 1 the modulus that reproduces the data is E k^-p
         p0["E"].value = e0 * kk ** (-p_exp)
         p0["contact_point"].value = cp_user
+        if cp_bounds is not None:
+            p0["contact_point"].set(min=cp_bounds[0], max=cp_bounds[1])
+            rec.event("fits with finite contact-point bounds")
         p0["baseline"].value = 0.0
         tap.clear()
         try:
